@@ -62,6 +62,10 @@ SPEC = dict(
                  ("_additional_vars.mean_distance_error", NUM), ("_additional_vars.num_misclassified_instances", INT),
                  ("_additional_vars.old_mean_distance_error", NUM), ("_additional_vars.std_distance_error", NUM),
                  ("_additional_vars.variance_distance_error", NUM), ("_additional_vars.warning", BOOL)],
+        "RDDM": [("_config", obj("RDDMConfig")), ("_num_instances", INT), ("drift", BOOL), ("_additional_vars.error_rate", obj("Mean")),
+                 ("_additional_vars.min_error_rate", NUMX), ("_additional_vars.min_std", NUMX), ("_additional_vars.warning", BOOL),
+                 ("_additional_vars.num_warnings", INT), ("_additional_vars.rddm_drift", BOOL),
+                 ("_additional_vars.predictions", obj("CircularQueue", NUM))],
         "ECDDWT": [("_config", obj("ECDDWTConfig")), ("_num_instances", INT), ("drift", BOOL), ("_additional_vars.p", obj("Mean")),
                    ("_additional_vars.z", obj("EWMA")), ("_additional_vars.warning", BOOL), ("_lambda_div_two_minus_lambda", NUM)],
     },
@@ -88,6 +92,7 @@ UNITS = [
     ("DDM", "_update"), ("DDM", "reset"),
     ("ECDDWT", "_update"), ("ECDDWT", "reset"),
     ("EDDM", "_update"), ("EDDM", "reset"),
+    ("RDDM", "_update"), ("RDDM", "reset"),
     ("HDDMA1", "_update"), ("HDDMA1", "reset"), ("HDDMA2", "_update"), ("HDDMA2", "reset"),
     ("HDDMW1", "_update"), ("HDDMW1", "reset"), ("HDDMW2", "_update"), ("HDDMW2", "reset"),
 ]
@@ -97,8 +102,8 @@ EQ = {
     "C18": ["EqStats.v"],
     "C07": ["EqStats.v", "EqCusum.v"],
     "C19": ["EqStats.v", "EqConfig.v"],
-    "C02": ["EqStats.v", "EqCusum.v", "EqSPC.v"],
-    "C03": ["EqStats.v", "EqSPC.v"],
+    "C02": ["EqStats.v", "EqCusum.v", "EqSPC.v", "EqRDDM.v"],
+    "C03": ["EqStats.v", "EqSPC.v", "EqRDDM.v"],
     "C04": ["EqStats.v", "EqHDDM.v", "EqHDDMW.v"],
 }
 
